@@ -53,9 +53,10 @@ class TargetDir:
         os.close(self.fd)
 
 
-def _run(cmd, cwd, timeout, env=None, log=None):
+def _run(cmd, cwd, timeout, env=None, log=None, mem_kb=None):
     t0 = time.time()
-    pre = f"ulimit -v {MEM_KB}; exec " if MEM_KB else "exec "
+    mem_kb = mem_kb or MEM_KB
+    pre = f"ulimit -v {mem_kb}; exec " if mem_kb else "exec "
     p = subprocess.Popen(["bash", "-c", pre + " ".join(cmd)], cwd=cwd, env=env or ENV, stdout=subprocess.PIPE, stderr=subprocess.STDOUT, text=True, start_new_session=True)
     try:
         out, _ = p.communicate(timeout=timeout)
@@ -182,7 +183,7 @@ def run_harness(ob, tier, logdir):
         cmd = ["cargo", "kani", "--target-dir", td, "-Z", "stubbing", "-Z", "concrete-playback", "--concrete-playback=print",
                "--no-assertion-reach-checks", "--exact", "--harness", ob["path"]] + extra
         log = os.path.join(logdir, h + ".log")
-        rc, out, to, dt = _run(cmd, HARNESS, timeout, log=log)
+        rc, out, to, dt = _run(cmd, HARNESS, timeout, log=log, mem_kb=ob.get("mem_gb") and ob["mem_gb"] * 1024 * 1024)
     r = parse_kani(out)
     r.update({"harness": h, "wall_s": round(dt, 1), "timed_out": to, "rc": rc, "log": log})
     if "error: could not compile" in out or "error[E" in out:
